@@ -31,7 +31,7 @@ pub fn strategy() -> BoxedStrategy<Choice> {
   (
     prop::collection::vec(file, 1..12),
     prop::option::weighted(0.35, 0u8..5),
-    prop::collection::vec((0u8..8, 0u8..26), 1..=5),
+    prop::collection::vec((0u8..10, 0u8..26), 1..=5),
     1u8..=3,
   )
     .prop_map(|(files, run_mode, rules, repeat)| Choice {
@@ -80,6 +80,10 @@ fn rule_doc(kind: u8, id: &str) -> String {
     4 => format!("id: {id}\nlanguage: JavaScript\nrule:\n  kind: expression_statement\n  has: {{pattern: 'baz($$$)'}}\nfix: ''\n"),
     5 => format!("id: {id}\nlanguage: Html\nrule:\n  kind: attribute_value\nfix: changed\n"),
     6 => format!("id: {id}\nlanguage: Css\nrule:\n  kind: plain_value\nfix: blue\n"),
+    // a host rule that replaces a whole <script>, and a rule on the root of the embedded document,
+    // which spans every <script> of the file
+    8 => format!("id: {id}\nlanguage: Html\nrule:\n  kind: script_element\n  regex: '1'\nfix: <b/>\n"),
+    9 => format!("id: {id}\nlanguage: JavaScript\nrule:\n  kind: program\nfix: P\n"),
     _ => format!("id: {id}\nlanguage: JavaScript\nseverity: error\nmessage: no fix here\nrule:\n  pattern: bar($$$)\n"),
   }
 }
@@ -92,7 +96,7 @@ pub fn interpret(ch: &Choice, _st: &mut Stats) -> Option<Case> {
     match kind {
       0 => {
         // an HTML host with a script (and an attribute for the host-language rule)
-        let html = format!("<div class=\"box\" id=x>\n<style>\n.a {{ color: red; margin: auto }}\n</style>\n<p title=\"t\">text</p>\n<script>\n{body}\n</script>\n<p class=\"c\">more</p>\n</div>\n");
+        let html = format!("<div class=\"box\" id=x>\n<style>\n.a {{ color: red; margin: auto }}\n</style>\n<p title=\"t\">text</p>\n<script>\n{body}\n</script>\n<p class=\"c\">more</p>\n<script>foo(2); qux(0)</script>\n</div>\n");
         files.push((format!("{dir}page{i}.html"), html));
       }
       1 => files.push((format!("{dir}notes{i}.txt"), format!("foo(1); // not a source file\n{body}\n"))),
@@ -151,7 +155,7 @@ struct Ann {
 }
 
 /// O-update: order the announced edits as the tool visits them and drop overlapping ones
-fn model(old: &str, mut anns: Vec<Ann>) -> Result<(String, usize, usize), String> {
+fn model(old: &str, mut anns: Vec<Ann>, host_lang: &str) -> Result<(String, usize, usize), String> {
   // one chain per document (language), as the tool scans each document on its own
   let mut by_doc: BTreeMap<String, Vec<Ann>> = BTreeMap::new();
   for a in anns.drain(..) {
@@ -159,11 +163,22 @@ fn model(old: &str, mut anns: Vec<Ann>) -> Result<(String, usize, usize), String
   }
   let mut accepted: Vec<Ann> = vec![];
   let mut dropped = 0;
-  for (_, mut v) in by_doc {
+  // the host document is rewritten first, the embedded documents after it: an edit that overlaps
+  // what an earlier document has rewritten is dropped like one that overlaps an earlier edit of
+  // its own document
+  let mut docs: Vec<(String, Vec<Ann>)> = by_doc.into_iter().collect();
+  docs.sort_by_key(|(lang, _)| (lang != host_lang, lang.clone()));
+  for (_, mut v) in docs {
     v.sort_by(|x, y| (x.node.0, std::cmp::Reverse(x.node.1), &x.rule).cmp(&(y.node.0, std::cmp::Reverse(y.node.1), &y.rule)));
+    // the root of a document and its only statement have the same range: which of the two nodes
+    // comes first cannot be told from the announced ranges
+    if v.windows(2).any(|w| w[0].node == w[1].node && (w[0].rule.ends_with("rule9") != w[1].rule.ends_with("rule9"))) {
+      return Err("a root node and another node with the same range are both rewritten".into());
+    }
+    let earlier: Vec<(usize, usize)> = accepted.iter().map(|t| t.rep).collect();
     let mut end = 0;
     for a in v {
-      if a.rep.0 < end {
+      if a.rep.0 < end || earlier.iter().any(|t| a.rep.0 < t.1 && t.0 < a.rep.1) {
         dropped += 1;
         continue;
       }
@@ -242,7 +257,8 @@ pub fn check(case: &Case, st: &mut Stats) -> CheckResult {
       if docs.len() >= 2 {
         nontrivial_docs = true;
       }
-      match model(old, anns) {
+      let host_lang = if f.ends_with(".html") { "Html" } else { "JavaScript" };
+      match model(old, anns, host_lang) {
         Ok((new, n, dropped)) => {
           if n >= 2 {
             nontrivial_multi = true;
@@ -254,7 +270,7 @@ pub fn check(case: &Case, st: &mut Stats) -> CheckResult {
           expected.insert(f, new);
         }
         Err(e) => {
-          st.discard("announced edits of different documents overlap (avoided by construction; skipped)");
+          st.discard("order of the announced edits not observable (root and another node with one range) or conflicting");
           st.note(e);
           return Ok(());
         }
@@ -342,7 +358,7 @@ pub fn check(case: &Case, st: &mut Stats) -> CheckResult {
 pub fn run(cfg: &RunCfg) -> i32 {
   let mut report = Report::new(
     cfg,
-    "case = project of 1-11 files (JavaScript with nested / multi-line calls and multi-byte text, some led by a byte order mark, HTML hosts with a <script>, non-source files) and either `run -p -r -l js -U` (5 pattern/rewrite pairs incl. nested and widening ones) or `scan -U` with 1-4 rules from 7 templates (nested matches, two rules on one node, expandEnd reaching the next separator, statement deletion, a host-language HTML rule, a rule without fix) in 1-2 multi-document rule files with generated ids; the command is repeated 1-3 times. Oracle O-update: the same command with --json=stream on the files as they are; edits ordered as the tool visits them (node start asc, outer first, rule id), overlapping ones dropped, spliced per file; compared byte for byte with the files after -U, plus the `Applied N changes` count. evaluations = -U invocations. Non-trivial = distinct case with a file with >= 2 accepted edits, a dropped overlapping edit, or a multi-document file.",
+    "case = project of 1-11 files (JavaScript with nested / multi-line calls and multi-byte text, some led by a byte order mark, HTML hosts with a <script>, non-source files) and either `run -p -r -l js -U` (5 pattern/rewrite pairs incl. nested and widening ones) or `scan -U` with 1-4 rules from 9 templates (a host rule replacing a whole <script>, a rule on the root of the embedded document, nested matches, two rules on one node, expandEnd reaching the next separator, statement deletion, a host-language HTML rule, a rule without fix) in 1-2 multi-document rule files with generated ids; the command is repeated 1-3 times. Oracle O-update: the same command with --json=stream on the files as they are; edits ordered as the tool visits them (node start asc, outer first, rule id), overlapping ones dropped, spliced per file; compared byte for byte with the files after -U, plus the `Applied N changes` count. evaluations = -U invocations. Non-trivial = distinct case with a file with >= 2 accepted edits, a dropped overlapping edit, or a multi-document file.",
   );
   report.assume("ties between different nodes with identical ranges are not generated by the rule templates");
   let known = Known::load(&cfg.prop);
@@ -354,7 +370,7 @@ pub fn run(cfg: &RunCfg) -> i32 {
   let o = drive(cfg, "update-all", total, &known, strategy, interpret, check);
   report.absorb("update-all", o);
   cli::cleanup_work_root();
-  report.floor("file_with_two_or_more_accepted_edits", 0.4, "evaluations");
+  report.floor("file_with_two_or_more_accepted_edits", 0.3, "evaluations");
   report.floor("dropped_overlapping_edit", 0.15, "evaluations");
   report.finish()
 }
